@@ -106,8 +106,34 @@ def main():
     cap = 900 if tr == "quick" else 30000
     if len(n2) > cap:
         n2 = rnd.sample(n2, cap)
+    def with_consistent_outage(an, k):
+        """the junction with the k-th label goes out of service together with everything attached to it (consistent flags)"""
+        import copy
+        an = copy.deepcopy(an)
+        labs = sorted(j["lab"] for j in an["J"])
+        off = labs[k % len(labs)]
+        for j in an["J"]:
+            if j["lab"] == off:
+                j["svc"] = False
+        gone = set()
+        for e in an["E"]:
+            is_pv = e["tbl"] == "valve" and e["et"] == "pi"
+            if e["a"] == off or (not is_pv and e["b"] == off) or (e["tbl"] == "press_control" and e["cj"] == off):
+                e["svc"] = False
+                if e["tbl"] == "pipe":
+                    gone.add(e["lab"])
+        for e in an["E"]:
+            if e["tbl"] == "valve" and e["et"] == "pi" and e["b"] in gone:
+                e["svc"] = False
+        for q in an["N"]:
+            if q["j"] == off:
+                q["svc"] = False
+        return an
     jobs = [{"id": "n%d" % i, "an": n["net"], "params": c01.row_params(n["net"]), "multi": (i % 4 != 0), "k": i}
             for i, n in enumerate(n1 + n2)]
+    # every third larger net also with one junction out of service together with all its elements (1-based labels: label != row position)
+    jobs += [{"id": "o%d" % i, "an": with_consistent_outage(n["net"], i), "params": c01.row_params(n["net"]), "multi": (i % 4 != 0), "k": i}
+             for i, n in enumerate(n2) if i % 3 == 0 and len(n["net"]["J"]) >= 3]
     cases = [c for c in core.pmap(run_case, jobs, chunksize=16) if "skip" not in c]
     by_id = {c["id"]: c for c in cases}
     res, fails = validate(cases)
